@@ -125,7 +125,7 @@ pub fn refill_steady<N: Nd, const F: usize, const CAP: usize>(nd: &mut N) {
     std::mem::forget(res);
     vassert!(allocs() == before, "C18 compaction and refill perform no heap allocation");
     vassert!(r.verif_buf_reader().capacity() == CAP, "C18 compaction and refill keep the buffer capacity");
-    vassert!(r.verif_buf_reader().buffer().len() == CAP, "C18 the refill fills the buffer again");
+    vassert!(r.verif_buf_reader().buffer().len() == if F - start < CAP { F - start } else { CAP }, "C18 the refill fills the buffer again (or exhausts the source)");
     cover!(true, "reached");
     std::mem::forget(r);
 }
